@@ -44,6 +44,11 @@ func PakRejection(m int) {
 		return
 	}
 	vp.Assert("unassigned-window-is-rejected", !unassigned)
+	// the class and position of every address are those of the documented table: the bus address an
+	// accepted pak address is sent to lies, per that table, in a region of the pak address's own class
+	vp.Assert("accepted-pak-address-lands-on-the-24-bit-bus", b < 1<<24)
+	class, _, ok := cartmap.Lookup(m, b&0xFFFFFF)
+	vp.Assert("accepted-pak-address-lands-in-a-documented-region-of-its-own-class", ok && class == cartmap.ClassOfAcceptedPak(q))
 	vp.Reach("accepted")
 }
 
